@@ -2,9 +2,10 @@
 //
 // Case: cfg = [arch(0 x64,1 x86,2 a64), kind(0 asm,1 builder,2 compiler), flags(1 L logger,2 V validation,4 H heap perturbation,
 //              8 A static arena,16 RA debug logging), final_step(0 reset soft,1 reset hard,2 reinit), mix(0 both recycled,1 recycled
-//              holder + fresh emitter,2 fresh holder + recycled emitter), static_sel, heap_seed, logfmt, post(0 none, 1..3 base sel)]
+//              holder + fresh emitter,2 fresh holder + recycled emitter), static_sel, heap_seed, logfmt, post(0 none, 1..3 base sel),
+//              encoding options(1 optimize for size, 2 optimized align)]
 //       ops[0..n-2] = HISTORY applied to one long-lived object set; ops[n-1] = P_final (program items from index 4).
-//   history op[0]: 0 INIT[arch,base] 1 ATTACH[kind] 2 GEN[kind,progflags,arch,items...] 3 ERR[variant,kind,a] 4 RESET[policy]
+//   history op[0]: 0 INIT[arch,base,host cpu features] 1 ATTACH[kind] 2 GEN[kind,progflags,arch,items...] 3 ERR[variant,kind,a] 4 RESET[policy]
 //                  5 REINIT 6 DETACH[kind] 7 REATTACH[kind] 8 DANGLE[kind,a] 9 LOGTOGGLE[on]
 //   program item = 4 ints [type,a,b,c]; FUNC item = header + nbody body items (Compiler only).
 // Oracle: state of the CodeHolder after P_final on recycled objects == state after P_final on FRESH objects with the same flags (F1),
@@ -44,6 +45,10 @@ static void arm(uint64_t seed) { if (!g_live) g_live = new std::unordered_map<vo
 static void disarm() { g_armed = false; }
 static size_t live() { return g_live ? g_live->size() : 0; }
 static void drop_all() { if (!g_live) return; for (auto& kv : *g_live) __real_free(kv.second.base); g_live->clear(); }
+struct Guard {   // arms the wrapper for a scope; always disarms, also when a failure is thrown through the scope
+  explicit Guard(bool on, uint64_t seed) { if (on) arm(seed); }
+  ~Guard() { disarm(); }
+};
 static uint8_t fill_byte(uint64_t seed) { static const uint8_t t[] = {0xFF, 0x00, 0xA5, 0x5A, 0x01, 0x80, 0x7F, 0xCC}; return t[seed & 7]; }
 }
 
@@ -1277,8 +1282,8 @@ struct Plan {
 
 // Fresh objects generating only P_final.
 static void run_fresh(const Plan& pl, const Flags& fl, uint64_t base, bool host_features, const vh::Op& prog, Snap& sn, vh::Ctx& ctx, const char* what) {
-  if (fl.H) hp::arm(uint64_t(fl.heap_seed));
   {
+    hp::Guard guard(fl.H, uint64_t(fl.heap_seed));
     ObjSet o(fl);
     o.do_init(pl.arch, base, host_features);
     BaseEmitter* e = o.em(pl.arch, pl.kind);
@@ -1286,7 +1291,6 @@ static void run_fresh(const Plan& pl, const Flags& fl, uint64_t base, bool host_
     run_final(o, e, pl.arch, pl.kind, prog, pl.post, nullptr, sn);
   }
   if (fl.H) {
-    hp::disarm();
     size_t l = hp::live();
     if (l) { hp::drop_all(); ctx.fail_unless_known("leak-after-destroy", std::string(what) + ": " + std::to_string(l) + " malloc blocks still live after all objects were destroyed"); }
   }
@@ -1321,8 +1325,10 @@ void vh_run(const vh::Case& c, vh::Ctx& ctx) {
   Prog* info = nullptr;
   bool any_func = false, any_reloc = false, any_section = false, any_named = false, any_fwd = false, any_pool = false;
   size_t ncalls = 0;
-  if (pl.fl.H) hp::arm(uint64_t(pl.fl.heap_seed));
+  hp::disarm();
+  hp::drop_all();     // blocks of a case that failed while armed
   {
+    hp::Guard guard(pl.fl.H, uint64_t(pl.fl.heap_seed));
     ObjSet o(pl.fl);
     std::unique_ptr<ObjSet> aux;
     for (size_t i = 0; i < nhist; i++) apply_hist(o, c.ops[i], ctx, h);
@@ -1372,7 +1378,6 @@ void vh_run(const vh::Case& c, vh::Ctx& ctx) {
     aux.reset();
   }
   if (pl.fl.H) {
-    hp::disarm();
     size_t l = hp::live();
     if (l) { hp::drop_all(); ctx.fail_unless_known("leak-after-destroy", "recycled run: " + std::to_string(l) + " malloc blocks still live after all objects were destroyed"); }
   }
